@@ -123,7 +123,7 @@ def main(argv):
         if gate:
             broken.append("grep gate: " + "; ".join(gate[:5]))
         models_ok = False
-        if ok:
+        if ok or vlib.CONSTS_USABLE:
             targets = []
             for part in (getattr(prop, "parts", None) or [prop]):
                 targets += [t for t in part.model_targets if t not in targets]
